@@ -6,6 +6,7 @@
   with x *is* the regex compiled from the stripped pattern — same program or same error.
 -/
 import RxModel.Model.Compile
+import RxModel.Proofs.MiscLemmas
 namespace Rx.C14
 open Rx
 
@@ -15,7 +16,7 @@ def isXsdWs (c : Nat) : Bool := c == 9 || c == 10 || c == 13 || c == 32
 theorem x_only_strips (env : Env) (fl : Flags) (hx : fl.allowWs = true) (hq : fl.literal = false)
     (p : List Nat) (opt : Bool) :
     compileProg env fl p opt = compileProg env { fl with allowWs := false } (stripWs p 0 false) opt := by
-  sorry
+  simp [compileProg, Flags.core, hx, hq]
 
 /-- … also for the whole constructor (incl. the nullability bit) -/
 theorem new_x_only_strips (env : Env) (fl fl' : Flags) (fs fs' : List Nat) (xsd : Bool)
@@ -23,46 +24,54 @@ theorem new_x_only_strips (env : Env) (fl fl' : Flags) (fs fs' : List Nat) (xsd 
     (hx : fl.allowWs = true) (hq : fl.literal = false) (hsame : fl' = { fl with allowWs := false })
     (p : List Nat) (opt : Bool) :
     Regex.new env p fs xsd opt = Regex.new env (stripWs p 0 false) fs' xsd opt := by
-  sorry
+  subst hsame
+  simp only [Regex.new, h1, h2, x_only_strips env fl hx hq p opt]
 
 /-- with q the flag x has no effect -/
 theorem q_ignores_x (env : Env) (fl : Flags) (hq : fl.literal = true) (p : List Nat) (opt : Bool) :
     compileProg env fl p opt = compileProg env { fl with allowWs := false } p opt := by
-  sorry
+  simp [compileProg, Flags.core, hq]
 
 /-- only the four whitespace characters are ever removed -/
 theorem strip_removes_only_ws (p : List Nat) (n : Int) (e : Bool) :
-    (stripWs p n e).filter (fun c => !isXsdWs c) = p.filter (fun c => !isXsdWs c) := by
-  sorry
+    (stripWs p n e).filter (fun c => !isXsdWs c) = p.filter (fun c => !isXsdWs c) :=
+  stripWs_filter p n e
 
 /-- the result is a sublist of the pattern (order kept, nothing added) -/
-theorem strip_sublist (p : List Nat) (n : Int) (e : Bool) : (stripWs p n e).Sublist p := by
-  sorry
+theorem strip_sublist (p : List Nat) (n : Int) (e : Bool) : (stripWs p n e).Sublist p :=
+  stripWs_sublist p n e
 
 /-- a pattern without any of the four characters is left alone -/
 theorem strip_id (p : List Nat) (h : p.all (fun c => !isXsdWs c) = true) (n : Int) (e : Bool) :
-    stripWs p n e = p := by
-  sorry
+    stripWs p n e = p :=
+  stripWs_id p h n e
 
 /-- outside brackets (depth 0, after a non-escape) whitespace is dropped … -/
 theorem strip_ws_outside (c : Nat) (hc : isXsdWs c = true) (rest : List Nat) (e : Bool) :
     stripWs (c :: rest) 0 e = stripWs rest 0 e := by
-  sorry
+  have h := stripWs_ws_not_special c hc
+  have hc' : (c == 9 || c == 10 || c == 13 || c == 32) = true := hc
+  rw [stripWs_cons]
+  simp [h.1, h.2.1, h.2.2, hc']
 
 /-- … inside brackets it is kept (and resets the escape state) -/
 theorem strip_ws_inside (c : Nat) (hc : isXsdWs c = true) (rest : List Nat) (n : Int) (hn : n ≠ 0) (e : Bool) :
     stripWs (c :: rest) n e = c :: stripWs rest n false := by
-  sorry
+  have h := stripWs_ws_not_special c hc
+  rw [stripWs_cons]
+  simp [h.1, h.2.1, h.2.2, hn]
 
 /-- a character that is neither whitespace, bracket nor backslash is kept at every depth -/
 theorem strip_other (c : Nat) (hc : isXsdWs c = false) (h1 : c ≠ 92) (h2 : c ≠ 91) (h3 : c ≠ 93)
     (rest : List Nat) (n : Int) (e : Bool) :
     stripWs (c :: rest) n e = c :: stripWs rest n false := by
-  sorry
+  have hc' : (c == 9 || c == 10 || c == 13 || c == 32) = false := hc
+  rw [stripWs_cons]
+  simp [h1, h2, h3, hc']
 
 /-- stripping is idempotent -/
-theorem strip_idempotent (p : List Nat) : stripWs (stripWs p 0 false) 0 false = stripWs p 0 false := by
-  sorry
+theorem strip_idempotent (p : List Nat) : stripWs (stripWs p 0 false) 0 false = stripWs p 0 false :=
+  stripWs_idem p 0 false
 
 example : stripWs [97, 32, 91, 32, 93, 9, 98, 92, 32, 99] 0 false = [97, 91, 32, 93, 98, 92, 99] := by decide
 
